@@ -498,6 +498,12 @@ func (c *Ctx) Stat(name string, n int) {
 func (c *Ctx) Obligations() []*Obligation { return c.obls }
 
 func (c *Ctx) Cleanup() {
+	if keep := os.Getenv("VERIF_KEEP_S2"); keep != "" { // development aid: keep the regenerated corpus
+		for _, d := range c.Scratch {
+			fmt.Fprintln(os.Stderr, "kept scratch:", d)
+		}
+		return
+	}
 	for _, d := range c.Scratch {
 		os.RemoveAll(d)
 	}
